@@ -1009,6 +1009,7 @@ func (r *Relayer) newFragmentSender(dstRelay frameReceiver, cr *lazyCallReq, ori
 func (rfs *relayFragmentSender) newFragment(initial bool, checksum Checksum) (*writableFragment, error) {
 	frame := rfs.framePool.Get()
 	frame.Header.ID = rfs.callReq.Header.ID
+	frame.Header.reserved1 = rfs.callReq.Header.reserved1
 	if initial {
 		frame.Header.messageType = messageTypeCallReq
 	} else {
